@@ -473,6 +473,9 @@ class Histogram1D(ObjectWithBinning, HistogramBase):
     def _kwargs_from_dict(cls, a_dict: Mapping[str, Any]) -> Dict[str, Any]:
         kwargs = HistogramBase._kwargs_from_dict(a_dict)  # type: ignore
         kwargs["binning"] = kwargs.pop("binnings")[0]
+        missed = kwargs.pop("missed", None)
+        if missed is not None:
+            kwargs["underflow"], kwargs["overflow"], kwargs["inner_missed"] = missed
         return kwargs
 
     @classmethod
